@@ -1,6 +1,7 @@
 /- Native line-protocol driver: one request per line, one answer line per request. -/
 import Driver.Proto
 import Driver.Quad
+import Driver.Sing
 import Driver.Alg
 import Driver.Solve
 import Driver.Color
@@ -8,6 +9,7 @@ import Driver.IOMap
 import Driver.Topo
 import Driver.Hist
 import Driver.Fmm
+import Driver.Bary
 import Driver.Space
 
 open Driver
@@ -15,15 +17,17 @@ open Driver
 def step (line : String) : String :=
   let toks := (line.splitOn " ").filter (· ≠ "")
   match toks with
+  | "singpairs" :: _ => Driver.Sing.handle toks
   | "tri" :: _ | "gauss" :: _ | "duffy" :: _ | "remapv" :: _ | "remape" :: _ | "nqp" :: _ => Driver.Quad.handle toks
   | "topo" :: _ | "geom" :: _ | "refineverts" :: _ | "baryverts" :: _ | "union" :: _ | "segments" :: _ | "childdoms" :: _ => Driver.Topo.handle toks
   | "ioexport" :: _ | "ioimport" :: _ | "iotransform" :: _ => Driver.IOMap.handle toks
-  | "color" :: _ | "g2l" :: _ => Driver.Color.handle toks
+  | "color" :: _ | "g2l" :: _ | "densetask" :: _ | "slots" :: _ => Driver.Color.handle toks
   | "hist" :: _ => Driver.Hist.handle toks
   | "solve" :: _ | "splitby" :: _ => Driver.Solve.handle toks
   | "alg" :: _ => Driver.Alg.handle toks
   | "fmmpmap" :: _ | "fmmsmap" :: _ | "fmmtidx" :: _ | "fmmmv" :: _ => Driver.Fmm.handle toks
-  | "space" :: _ => Driver.Space.handle toks
+  | "space" :: _ | "bcint" :: _ => Driver.Space.handle toks
+  | "bary" :: _ => Driver.Bary.handle toks
   | _ => "err bad-op"
 
 partial def loop (h : IO.FS.Stream) (out : IO.FS.Stream) : IO Unit := do
